@@ -18,14 +18,26 @@ from ..report import Report
 from . import _stdio
 
 
-def _shielded_with(w) -> bool:
+def _shield_of(w):
+    """None if `w` is not a shielded cancel scope; otherwise its deadline expression (or 'none' for no deadline)."""
     for it in getattr(w, "items", []):
         c = it.context_expr
-        if isinstance(c, ast.Call) and call_name(c).endswith("CancelScope"):
-            sh = kwarg(c, "shield")
-            if isinstance(sh, ast.Constant) and sh.value is True:
-                return True
-    return False
+        if not isinstance(c, ast.Call):
+            continue
+        nm = call_name(c)
+        sh = kwarg(c, "shield")
+        if not (isinstance(sh, ast.Constant) and sh.value is True):
+            continue
+        if nm.endswith("CancelScope"):
+            d = kwarg(c, "deadline")
+            return "none" if d is None else ast.unparse(d)
+        if nm.split(".")[-1] in ("move_on_after", "fail_after"):
+            return ast.unparse(c.args[0]) if c.args else "none"
+    return None
+
+
+def _shielded_with(w) -> bool:
+    return _shield_of(w) is not None
 
 
 class ShutdownAnalysis(PathAnalysis):
@@ -35,8 +47,9 @@ class ShutdownAnalysis(PathAnalysis):
 
     def raises(self, node, state):
         tags = set()
+        hv = tuple(h.name for h in self.handler_stack if h.name)
         for c in calls_in_order(node):
-            if not is_benign_call(c):
+            if not is_benign_call(c, hv):
                 tags.add(ANY_EXC)
                 break
         if has_await(node) and not any(_shielded_with(w) for w in self.with_stack):
@@ -127,8 +140,16 @@ def check(P: Project, R: Report) -> None:
     def xev(call, st, an):
         nm = call_name(call)
         if nm == f"self.{term.name}":
-            sh = any(_shielded_with(w) for w in an.with_stack)
-            return "terminate:" + ("shielded" if sh else "unshielded")
+            kinds = [_shield_of(w) for w in an.with_stack if _shield_of(w) is not None]
+            if not kinds:
+                return "terminate:unshielded"
+            # a shield with its own deadline must outlast the whole kill ladder, or kill() is never reached
+            for k in kinds:
+                if k != "none":
+                    v = try_fold(P, ax.module, ast.parse(k, mode="eval").body)
+                    if not (isinstance(v, (int, float)) and v > worst):
+                        return f"terminate:shield-expires-first({k}={v})"
+            return "terminate:shielded"
         return None
 
     xa, xo = run_paths(ax.node, event_of=xev, cls=ShutdownAnalysis, exc_after_events=True)
@@ -148,7 +169,7 @@ def check(P: Project, R: Report) -> None:
             n_c += 1
             ok = "terminate:shielded" in terms or not_running(st)
             R.ob("R2", "cancelled exit still terminates the child (shielded)", ok, where,
-                 f"cancellation raised at `{ast.unparse(node)[:50]}` leaves __aexit__ with terminate events {terms}: the child keeps running", sample=f"R2 Cancelled at `{ast.unparse(node)[:40]}` → {terms}")
+                 f"cancellation raised at `{ast.unparse(node)[:50]}` leaves __aexit__ with terminate events {terms} (kill ladder needs {worst}s): the child keeps running", sample=f"R2 Cancelled at `{ast.unparse(node)[:40]}` → {terms}")
         elif kind in ("return", "falloff"):
             ok = bool(terms) or not_running(st)
             R.ob("R2", "normal exit has terminated the child", ok, where, f"terminate events {terms}; literals {sorted(l[:40] for l in st.lits if 'process' in l)}")
